@@ -472,7 +472,9 @@ def write_evidence(prop, mod, tier, verif_seed, results, samples, specs, sweep_s
                          "Flask-JWT-Extended", "PyJWT", "Jinja2", "lxml", "passlib bcrypt (rounds=4)"],
                 "stub": ["flask_login (shim of 0.6.3 session login)", "sqlalchemy_jsonfield (JSON over Text)",
                          "dotenv (no-op)", "netifaces (empty)", "asgiref.sync (run coroutine inline)",
-                         "network/clock/secrets/uuid4 (simulator seams)"],
+                         "network/clock/secrets/uuid4 (simulator seams)",
+                         "sqlite3 connection class, FileStorage.save, Path.unlink/replace, upload_lock (same behaviour "
+                         "with a scheduler seam; pass-through outside bursts)"],
             },
             "workers": nworkers,
             "hashseeds": list(range(HASHSEEDS)),
@@ -482,7 +484,7 @@ def write_evidence(prop, mod, tier, verif_seed, results, samples, specs, sweep_s
             "harness_errors": len(harness),
         },
         "assumptions": list(getattr(mod, "ASSUMPTIONS", [])) + [
-            "requests are atomic (one WSGI call per scheduler step); no pre-emption inside a request",
+            "outside bursts and crash points requests are atomic (one WSGI call per scheduler step)",
             "process-crash semantics only (completed system calls persist); no power-loss model",
         ],
         "wall_s": round(wall_s, 2),
